@@ -1,7 +1,10 @@
 package c01
 
 import (
+	"sync"
 	"testing"
+
+	"github.com/cilium/statedb"
 
 	"verifharness/dbsim"
 	"verifharness/vkit"
@@ -30,5 +33,84 @@ func TestVerif_SnapshotsLPM(t *testing.T) {
 	o.SchemaPick = []int{1, 3}
 	o.Tables = 1
 	dbsim.BubbleCases(t, r, vkit.N(600, 30000), o, func(s *dbsim.Sim) bool { return s.FrozenChecks() > 0 && s.Commits() > 1 })
+	r.Finish()
+}
+
+// Concurrent readers under the race detector: one writer runs a random history (all index kinds, aborts) while 6 readers
+// take snapshots, reconstruct the contents from the primary index, run the full battery against it (every index must agree
+// with the snapshot's own contents) and keep re-querying up to 4 retained snapshots each: the transcript must never change.
+func TestVerifRace_Readers(t *testing.T) {
+	r := vkit.Start(t, "C01", "readers-race", "exploration", "one writer history (schemas with part and LPM indexes, 20% aborts) with 6 concurrent snapshot readers under the race detector; "+
+		"every reader re-queries its retained snapshots (transcript of a fixed probe battery must equal the one taken at creation) while the writer commits; "+
+		"non-trivial = a retained snapshot was re-queried after a later commit; distinct = (history, reader) pairs")
+	r.Require("frozen_rechecks_concurrent", "commits")
+	n := vkit.N(30, 600)
+	r.ParallelCases(n, 2, func(i int) {
+		o := dbsim.Opts{Tables: 2, Txns: 60, MaxOps: 8, ProbesPerIndex: 1, AbortPct: 20, SchemaPick: []int{1, 3, 0}, Report: map[string]bool{}}
+		s := dbsim.NewSim(r, i, o)
+		tabs := s.Tables()
+		stop := make(chan struct{})
+		var wg sync.WaitGroup
+		for rd := 0; rd < 6; rd++ {
+			wg.Add(1)
+			go func(rd int) {
+				defer wg.Done()
+				rng := r.Rand(i, uint64(rd)+100)
+				type snap struct {
+					txn        statedb.ReadTxn
+					models     []*dbsim.TableModel
+					probes     [][]dbsim.Probe
+					transcript []uint64
+					rev        []uint64
+				}
+				var snaps []*snap
+				rechecks := 0
+				for {
+					select {
+					case <-stop:
+						r.Count("frozen_rechecks_concurrent", int64(rechecks))
+						r.Case(uint64(i)<<8|uint64(rd), rechecks > 0)
+						return
+					default:
+					}
+					sn := &snap{txn: s.DB.ReadTxn()}
+					for _, ti := range tabs {
+						m := dbsim.ModelFromSnapshot(sn.txn, ti.Table)
+						probes := ti.GenProbes(rng, m, 3)
+						msg, c, tr := dbsim.Battery(sn.txn, ti.Table, m, probes, false)
+						if msg != "" {
+							r.Violation("concurrent-snapshot/"+c, i, map[string]any{"message": "snapshot taken while a writer runs: indexes disagree with the snapshot's own contents: " + msg})
+							return
+						}
+						sn.models, sn.probes, sn.transcript = append(sn.models, m), append(sn.probes, probes), append(sn.transcript, tr)
+					}
+					if len(snaps) < 4 {
+						snaps = append(snaps, sn)
+					} else {
+						snaps[rng.IntN(4)] = sn
+					}
+					for _, old := range snaps {
+						for ti, info := range tabs {
+							msg, c, tr := dbsim.Battery(old.txn, info.Table, old.models[ti], old.probes[ti], false)
+							rechecks++
+							if msg != "" || tr != old.transcript[ti] {
+								r.Violation("frozen-concurrent/"+c, i, map[string]any{"message": "retained snapshot re-queried while the writer runs: " + msg + " (transcript changed)"})
+								return
+							}
+						}
+					}
+				}
+			}(rd)
+		}
+		func() {
+			defer s.Recover()
+			for x := 0; x < o.Txns && !s.Failed; x++ {
+				s.RunTxn(x)
+			}
+		}()
+		close(stop)
+		wg.Wait()
+		s.Finish(s.Commits() > 1)
+	})
 	r.Finish()
 }
